@@ -57,8 +57,30 @@ def sample_rows(n, widths, k, seed):
     return sorted(rows)
 
 
-def observe(P):
+def through_yaml(prob):
+    """The same problem rebuilt from its configuration after a YAML round trip (the route restore() and the
+    configuration-only constructors take): OmegaConf.save / load / hydra instantiate."""
+    import os
+    import tempfile
+    from hydra.utils import instantiate
+    from omegaconf import OmegaConf
+    fd, path = tempfile.mkstemp(suffix=".yaml", prefix="verif-inv-")
+    os.close(fd)
+    try:
+        OmegaConf.save(prob.config, path)
+        return instantiate(OmegaConf.load(path))
+    finally:
+        os.unlink(path)
+
+
+def construct(P):
     prob = build(P)
+    if P.get("route") == "yaml":
+        prob = through_yaml(prob)
+    return prob
+
+
+def observe(P, prob):
     S, A, E = prob.state_space, prob.action_space, prob.random_event_space
     full = S
     n_full = int(np.asarray(S).shape[0])
@@ -104,9 +126,28 @@ def observe(P):
 def main():
     req = json.load(sys.stdin)
     out = []
+    # ALL problems of the request are constructed before the first one is evaluated (and stay alive): instances of
+    # one class with different parameters must not influence each other
+    built = []
     for P in req["params"]:
         try:
-            out.append(observe(P))
+            built.append(construct(P))
+        except Exception as ex:
+            built.append(ex)
+    # ... and after them further instances of every class with smaller and with larger parameters (never evaluated)
+    decoys = []
+    # (the smallest last: out-of-range slices clip silently, so a too-small shared layout is the dangerous direction)
+    for D in ({"kind": "forest", "S": 9}, {"kind": "forest", "S": 2},
+              {"kind": "demoor", "m": 4, "L": 3, "Q": 1, "D": 1, "fifo": True}, {"kind": "demoor", "m": 1, "L": 1, "Q": 2, "D": 3, "fifo": False},
+              {"kind": "hendrix", "m": 3, "Qa": 1, "Qb": 1}, {"kind": "hendrix", "m": 1, "Qa": 2, "Qb": 2},
+              {"kind": "mirjalili", "m": 4, "Q": 1, "D": 1}, {"kind": "mirjalili", "m": 1, "Q": 2, "D": 2}):
+        c = {"forest": [1.0, 1.0, 1.0], "demoor": [-1.0] * 4, "hendrix": [1.0, 1.0, -1.0, -1.0], "mirjalili": [-1.0] * 5}[D["kind"]]
+        decoys.append(build(dict(D, coef=c)))
+    for P, prob in zip(req["params"], built):
+        try:
+            if isinstance(prob, Exception):
+                raise prob
+            out.append(observe(P, prob))
         except Exception as ex:
             out.append({"crash": f"{type(ex).__name__}: {str(ex)[:300]}", "P": P})
     json.dump(out, open(req["out"], "w"))
